@@ -6,7 +6,7 @@ A. TLC enumerates and checks, in every state, five specifications under specs/na
    generator with its formatters against ISO 32000-1 table 159), NameTree.tla (every tree shape x every query:
    lookup_name with Limits pruning, get_dest with the /Dests dictionary), Outline.tla (every outline forest x every
    target placement: the generator recursion) and TextString.tla (byte strings with and without the byte order
-   mark).  Every terminal state is realised as a real PDF (harness/realise/navdoc.py, two physical variants) and
+   mark).  Every terminal state is realised as a real PDF (harness/realise/navdoc.py, three physical variants: direct, indirect nodes, single entries indirect) and
    NumberTree.values, get_page_labels(), PDFPage.label, get_dest(), get_outlines() (with the number of live generator
    frames at each yield) and decode_text are compared with the reference result (intended) and the machine's result
    (as coded, with the named deviations).
@@ -257,14 +257,23 @@ def account(ck, job):
     return job["recs"]
 
 
+def physical(kind, i):
+    """the physical variant of case i: 0 direct, 1 indirect nodes / values, 2 a subset of the single entries (/S /P /St,
+    keys, arrays, /Limits elements, /Title, /A ...) written as indirect references - the subset changes from case
+    to case (every subset comes up, all of them at once included).  The specification's expectation is the same
+    for all of them: indirectness is transparent (ISO 32000-1 7.3.10)."""
+    n = len(ND.ENTRY_CLASSES[kind])
+    return i % 3, ((i // 3) * 7 + 2 ** n - 1) % (2 ** n)
+
+
 # ================================================================================================ number trees
 def eval_numtree(rec, i):
     findings, drift = [], 0
     tree = rec["tree"]
     npages = 8
-    variant = i % 2
-    data, meta = ND.numtree_doc(tree, npages, variant)
-    detail = "number tree %s (variant %d)" % (json.dumps(tree), variant)
+    variant, mask = physical("numtree", i)
+    data, meta = ND.numtree_doc(tree, npages, variant, mask)
+    detail = "number tree %s (variant %d, indirect entries %s)" % (json.dumps(tree), variant, sorted(meta["deep"]))
     ok, doc = guarded("PDFDocument", lambda: OB.open_doc(data), findings, detail)
     if not ok:
         return findings, 0, 1, False, None
@@ -281,11 +290,15 @@ def eval_numtree(rec, i):
     for pg in range(npages):
         below = [k for k in rec["ref"] if k <= pg]
         want.append("k%d-%d" % (below[-1], 1 + pg - below[-1]) if below else "")
+    prefix_only = [w.split("-")[0] + "-" if w else "" for w in want]       # what an ignored /S leaves
     ok, labels = guarded("get_page_labels", lambda: OB.page_labels(doc, npages), findings, detail)
     if ok and labels != want:
-        findings.append(("numtree:labels", "get_page_labels() gives %s, expected %s: %s" % (labels, want, detail)))
+        if "S" in meta["deep"] and labels == prefix_only:
+            findings.append(("indirect:label-style", "get_page_labels() gives %s, expected %s: %s" % (labels, want, detail)))
+        else:
+            findings.append(("numtree:labels", "get_page_labels() gives %s, expected %s: %s" % (labels, want, detail)))
     ok, plabels = guarded("PDFPage.label", lambda: [p.label for p in OB.PDFPage.create_pages(OB.open_doc(data))], findings, detail)
-    if ok and plabels != want:
+    if ok and plabels != want and not ("S" in meta["deep"] and plabels == prefix_only):
         findings.append(("numtree:page.label", "PDFPage.label gives %s, expected %s: %s" % (plabels, want, detail)))
     sample = {"number_tree": tree, "variant": variant, "expected_keys": rec["ref"], "observed_keys": keys, "labels": labels} if i % 97 == 0 else None
     return findings, drift, 1, not tree["leaf"], sample
@@ -297,9 +310,9 @@ def eval_labels(rec, i):
     vals, ref, out = rec["vals"], rec["ref"], rec["out"]
     fired = set(rec["fired"])
     P = len(ref)
-    variant = i % 2
-    data, meta = ND.labels_doc(vals, P, variant)
-    detail = "label ranges %s (variant %d)" % (json.dumps(vals), variant)
+    variant, mask = physical("labels", i)
+    data, meta = ND.labels_doc(vals, P, variant, mask)
+    detail = "label ranges %s (variant %d, indirect entries %s)" % (json.dumps(vals), variant, sorted(meta["deep"]))
     ok, doc = guarded("PDFDocument", lambda: OB.open_doc(data), findings, detail)
     if not ok:
         return findings, 0, 1, False, None
@@ -313,7 +326,9 @@ def eval_labels(rec, i):
                     continue
                 rng = [r for r in vals if r["start"] <= j]
                 style = rng[-1]["style"] if rng else "none"
-                if labels[j] == out[j] and (j + 1) in fired:
+                if "S" in meta["deep"] and style != "none" and rng and labels[j] == rng[-1]["prefix"]:
+                    findings.append(("indirect:label-style", "page %d is labelled %r, expected %r (%s)" % (j, labels[j], ref[j], detail)))
+                elif labels[j] == out[j] and (j + 1) in fired:
                     findings.append(("dev:AlphaBijective", "page %d is labelled %r, ISO 32000-1 table 159 gives %r (%s)" % (j, labels[j], ref[j], detail)))
                 else:
                     findings.append(("label:style=%s" % style, "page %d is labelled %r, expected %r (%s)" % (j, labels[j], ref[j], detail)))
@@ -331,11 +346,12 @@ def eval_dests(group, i):
     """group: the records (one per query) that share one document"""
     findings, drift = [], 0
     r0 = group[0]
-    variant = i % 2
-    data, meta = ND.dests_doc(r0["tree"], r0["hastree"], r0["dict"], r0["hasdict"], variant)
+    variant, mask = physical("dests", i)
+    data, meta = ND.dests_doc(r0["tree"], r0["hastree"], r0["dict"], r0["hasdict"], variant, mask=mask)
     nkeys = meta["nkeys"]
-    detail = "name tree %s dict %s (variant %d)" % (json.dumps(r0["tree"]) if r0["hastree"] else None,
-                                                   sorted(r0["dict"]) if r0["hasdict"] else None, variant)
+    deep = meta["deep"]
+    detail = "name tree %s dict %s (variant %d, indirect entries %s)" % (json.dumps(r0["tree"]) if r0["hastree"] else None,
+                                                                        sorted(r0["dict"]) if r0["hasdict"] else None, variant, sorted(deep))
     ok, doc = guarded("PDFDocument", lambda: OB.open_doc(data), findings, detail)
     if not ok:
         return findings, 0, len(group), False, None
@@ -358,6 +374,10 @@ def eval_dests(group, i):
         if real == rec["result"] and rec["fired"]:
             for dname in rec["fired"]:
                 findings.append(("dev:" + dname, "get_dest(%r) gives %s, expected %s (%s)" % (key, real, rec["ref"], detail)))
+        elif q["kind"] == "string" and "lim" in deep and real == "TypeError":
+            findings.append(("indirect:name-tree-limits", "get_dest(%r) gives %s, expected %s (%s)" % (key, real, rec["ref"], detail)))
+        elif q["kind"] == "string" and "key" in deep and real == "NotFound" and isinstance(rec["ref"], list) and rec["ref"][0] == "tree":
+            findings.append(("indirect:name-tree-keys", "get_dest(%r) gives %s, expected %s (%s)" % (key, real, rec["ref"], detail)))
         else:
             findings.append(("dest:%s:%s" % (q["kind"], real if isinstance(real, str) else real[0]),
                              "get_dest(%r) gives %s, expected %s (%s)" % (key, real, rec["ref"], detail)))
@@ -373,9 +393,9 @@ def eval_outline(rec, i):
     if n == 0:
         lev, tgt = [], []
     fired = set(rec["fired"])
-    variant = i % 2
-    data, meta = ND.outline_doc(n, lev, tgt, variant)
-    detail = "outline levels %s targets %s (variant %d)" % (lev, tgt, variant)
+    variant, mask = physical("outline", i)
+    data, meta = ND.outline_doc(n, lev, tgt, variant, mask)
+    detail = "outline levels %s targets %s (variant %d, indirect entries %s)" % (lev, tgt, variant, sorted(meta["deep"]))
     ok, doc = guarded("PDFDocument", lambda: OB.open_doc(data), findings, detail)
     if not ok:
         return findings, 0, 1, False, None
@@ -1065,7 +1085,7 @@ def run(ck):
     ck.extra["deviations_modelled_as_coded"] = dev
     ck.rule = ("A: every terminal state of NumTree.tla (tree shape x key set), Labels.tla (ranges x styles x St x prefix), "
                "NameTree.tla (tree shape x /Dests dictionary x query; one document per tree, all its queries), Outline.tla "
-               "(forest x targets) and TextString.tla (byte string), each realised in one of two physical variants; "
+               "(forest x targets) and TextString.tla (byte string), each realised in one of three physical variants (the third writes a changing subset of the single entries as indirect references); "
                "non-trivial = a tree with Kids, a styled or prefixed range, more than one outline item, a claimed string longer "
                "than its byte order mark. B: one trace per recorded document that has labels, outlines or destinations "
                "(samples + large generated documents); non-trivial = more than 3 recorded results.")
